@@ -122,7 +122,7 @@ def search(ctx, hints):
                           replay=dict(scenario=v['scenario'], outcomes=v['outcomes'][:6],
                                       command='harness/bin/c01 mode=replay file=<scenario.json> n=%d' % n)))
     return dict(evaluations=res['evaluations'], distinct_nontrivial=res['distinct'], violations=viols,
-                samples=[dict(note='N-fold re-execution', n=res['n'], cases=res['cases'])])
+                samples=[dict(note='N-fold re-execution', n=res['n'], cases=res['cases'], kinds=res.get('kinds'), evm=res.get('evm'))])
 
 
 def replay(ctx, payload):
